@@ -74,7 +74,12 @@ class Passwords:
 
     async def _check_password(self, identity: Identity,
                               credentials: ServerCredentials) -> bool:
-        return credentials.verify(identity)
+        try:
+            return credentials.verify(identity)
+        except ValueError:
+            # the name or password contains characters prohibited by the
+            # string preparation, or bytes that are not valid UTF-8
+            return False
 
 
 @dataclass(frozen=True)
